@@ -404,6 +404,8 @@ impl BlockFilterRpc for BlockFilterRpcImpl {
         scripts: Vec<ScriptStatus>,
         command: Option<SetScriptsCommand>,
     ) -> Result<()> {
+        #[cfg(nervosnetwork_ckb_light_client_verif)]
+        crate::verif_hooks::lock_event("set_scripts");
         let mut matched_blocks = self.swc.matched_blocks().write().expect("poisoned");
         let scripts = scripts.into_iter().map(Into::into).collect();
         self.swc
